@@ -22,6 +22,14 @@ namespace Icinga.C19
 inductive Scope | locals | this | globals
   deriving DecidableEq, Repr, Inhabited
 
+/-- What a Reference object points into (lib/base/reference.hpp: parent object + index). -/
+inductive RefParent
+  | obj (name : String)                          -- a live ConfigObject
+  | globals                                      -- the globals namespace
+  | locals                                       -- the frame's locals / `this` dictionary
+  | dict (l : List (String × String))            -- some other dictionary value
+  deriving DecidableEq, Repr, Inhabited
+
 /-- Script values.  Containers hold strings only (enough for `in`, `for`, literals); live config
     objects, natives and script functions are references by name. -/
 inductive Value
@@ -36,6 +44,7 @@ inductive Value
   | closure (id : String)        -- script function (vmops.hpp:93-117: never side-effect free)
   | scope (s : Scope)            -- the globals namespace / the locals dictionary as a value
   | type_ (name : String)        -- a Type object (constructor calls)
+  | refr (parent : RefParent) (index : String)   -- a Reference object (`&x`, `&o.f`)
   deriving DecidableEq, Repr, Inhabited
 
 structure Obj where
@@ -73,7 +82,7 @@ inductive IncKind | regular | recursive | zones
 inductive Expr
   | lit (v : Value)                                   -- LiteralExpression          :92
   | var (name : String)                               -- VariableExpression         :111
-  | ref (name : String)                               -- RefExpression              :152
+  | ref (target : Expr)                               -- RefExpression              :152  (&x, &o.f)
   | deref (e : Expr)                                  -- DerefExpression            :166
   | unop (op : UnOp) (e : Expr)                       -- Negate/LogicalNegate       :193,:201
   | binop (op : BinOp) (a b : Expr)                   -- Add … NotIn                :209-:417
@@ -87,6 +96,7 @@ inductive Expr
   | setVar (name : String) (op : SetOp) (rhs : Expr)          -- SetExpression      :606  x = …
   | setScoped (s : Scope) (name : String) (op : SetOp) (rhs : Expr)   -- SetExpression   var x = … / globals.x = …
   | setField (o : Expr) (field : String) (op : SetOp) (rhs : Expr)    -- SetExpression   o.field = …
+  | setDeref (r : Expr) (op : SetOp) (rhs : Expr)             -- SetExpression   *r = …  (DerefExpression::GetReference :180)
   | setConst (name : String) (e : Expr)               -- SetConstExpression         :674
   | cond (c t : Expr) (f : Option Expr)               -- ConditionalExpression      :687
   | while_ (c body : Expr)                            -- WhileExpression            :700
@@ -128,6 +138,7 @@ def Expr.kind : Expr → String
   | .call _ _ => "FunctionCallExpression" | .mcall _ _ _ => "FunctionCallExpression"
   | .array _ => "ArrayExpression" | .dict _ _ => "DictExpression" | .getScope _ => "GetScopeExpression"
   | .setVar _ _ _ => "SetExpression" | .setScoped _ _ _ _ => "SetExpression" | .setField _ _ _ _ => "SetExpression"
+  | .setDeref _ _ _ => "SetExpression"
   | .setConst _ _ => "SetConstExpression" | .cond _ _ _ => "ConditionalExpression"
   | .while_ _ _ => "WhileExpression" | .return_ _ => "ReturnExpression" | .break_ => "BreakExpression"
   | .continue_ => "ContinueExpression" | .index _ _ => "IndexerExpression" | .throw_ _ => "ThrowExpression"
@@ -219,6 +230,8 @@ structure Cfg where
   guard : String → Bool                      -- generated: throw guard at the head of X::DoEvaluate
   callCheck : Bool                           -- generated: expression.cpp:481-482 present
   fieldCheck : Bool                          -- generated: object.cpp:119-124 present
+  refGetSandboxed : Bool := true             -- generated: the literal `sandboxed` argument in Reference::Get (reference.cpp:22)
+  initDictOff : Bool := true                 -- generated: `if (frame.Sandboxed) init_dict = false;` (expression.cpp:758-759)
   native : String → Option Native
   hidden : String → String → Bool            -- type, field ↦ FANoUserView
   tmpl : String → Option Expr := fun _ => none      -- templates known to ConfigItem (import)
@@ -241,12 +254,12 @@ def Value.toStr : Value → String
   | .empty => "" | .num n => toString n | .str s => s | .bool b => if b then "true" else "false"
   | .arr _ => "Object of type 'Array'" | .dict _ => "Object of type 'Dictionary'"
   | .obj n => "Object of type '" ++ n ++ "'" | .fn n => n | .closure n => n
-  | .scope _ => "Object of type 'Namespace'" | .type_ n => n
+  | .scope _ => "Object of type 'Namespace'" | .type_ n => n | .refr _ _ => "Object of type 'Reference'"
 
 def Value.typeName : Value → String
   | .empty => "Empty" | .num _ => "Number" | .str _ => "String" | .bool _ => "Boolean" | .arr _ => "Array"
   | .dict _ => "Dictionary" | .obj _ => "ConfigObject" | .fn _ => "Function" | .closure _ => "Function"
-  | .scope .globals => "Namespace" | .scope _ => "Dictionary" | .type_ _ => "Type"
+  | .scope .globals => "Namespace" | .scope _ => "Dictionary" | .type_ _ => "Type" | .refr _ _ => "Reference"
 
 def numOf : Value → Option Int
   | .empty => some 0 | .num n => some n | .bool b => some (if b then 1 else 0) | _ => none
@@ -398,13 +411,39 @@ def combine (op : SetOp) (old new : Value) : M Value :=
   | none => pure new
   | some b => liftE (binop b old new)
 
-/-- Invoking a function value (Function::Invoke/InvokeThis behind VMOps::FunctionCall): logged. -/
-def invokeNative (name : String) (f : Native) (self : Value) (args : List Value) : M Value := do
+def RefParent.toValue : RefParent → Value
+  | .obj n => .obj n | .globals => .scope .globals | .locals => .scope .locals | .dict l => .dict l
+
+/-- Reference::Get (lib/base/reference.cpp:20-23): `m_Parent->GetFieldByName(m_Index, <literal>, …)` — the
+    sandbox flag is the LITERAL in the source (generated into `cfg.refGetSandboxed`), not the frame's. -/
+def refRead (cfg : Cfg) (r : Value) : M Value :=
+  match r with
+  | .refr p idx => getField cfg cfg.refGetSandboxed p.toValue idx
+  | _ => M.fail (.script "Invalid reference specified.")
+
+/-- Reference::Set (reference.cpp:25-28): `m_Parent->SetFieldByName(...)` — no sandbox parameter at all. -/
+def refWrite (r : Value) (v : Value) : M Unit :=
+  match r with
+  | .refr (.obj n) idx => writeAttr n idx v
+  | .refr .globals idx => writeGlobal idx v
+  | .refr .locals idx => writeLocal idx v
+  | .refr (.dict _) _ => pure ()                        -- writes into a temporary the model does not track
+  | _ => M.fail (.script "Invalid reference specified.")
+
+/-- Invoking a function value (Function::Invoke/InvokeThis behind VMOps::FunctionCall): logged.
+    `Reference#get` / `Reference#set` (reference-script.cpp) are built in; every other native is the opaque
+    state transformer of the table. -/
+def invokeNative (cfg : Cfg) (name : String) (f : Native) (self : Value) (args : List Value) : M Value := do
   M.modify fun e => { e with calls := .native name :: e.calls }
-  let env ← M.get
-  let (r, p') := f.run self args env.prot
-  M.modify fun e => { e with prot := p' }
-  liftE r
+  if name = "Reference#get" then refRead cfg self
+  else if name = "Reference#set" then do
+    refWrite self (args.headD .empty)
+    pure .empty
+  else do
+    let env ← M.get
+    let (r, p') := f.run self args env.prot
+    M.modify fun e => { e with prot := p' }
+    liftE r
 
 def bindParams : List String → List Value → List (String × Value)
   | p :: ps, a :: as => (p, a) :: bindParams ps as
@@ -420,7 +459,7 @@ def callValue (cfg : Cfg) (sb : Bool) (ev : Expr → M Out) (evArgs : List Expr 
     | none => M.fail (.script "Argument is not a callable object.")
     | some f =>
       if !f.safe && sb && cfg.callCheck then M.fail (.notSafe (.native name))          -- :481-482
-      else evArgs args fun vs => do let r ← invokeNative name f self vs; pure (r, .ok)  -- :484-493
+      else evArgs args fun vs => do let r ← invokeNative cfg name f self vs; pure (r, .ok)  -- :484-493
   | .closure id => do
     if sb && cfg.callCheck then M.fail (.notSafe (.script id))        -- vmops.hpp:115: side_effect_free = false
     else
@@ -474,17 +513,46 @@ def loopFor (ev : Expr → M Out) (kvar vvar : String) (body : Expr) : List (Str
     | .return_ => pure r
     | _ => loopFor ev kvar vvar body rest
 
+/-- The `init_dict` step of IndexerExpression::GetReference for a left-hand side `base.k.field`
+    (expression.cpp:758-776): if `base.k` is missing/Empty it is created as an empty dictionary — one level,
+    on a live object, the globals namespace or the locals (deeper containers are values the model does not
+    write back). -/
+def initDict (cfg : Cfg) (sb : Bool) (ev : Expr → M Out) (o : Expr) : M Out :=
+  if sb && cfg.initDictOff then pure (.empty, .ok)                    -- :758-759
+  else match o with
+    | .index base key => chk (ev base) fun bv => chk (ev key) fun kv => do
+        let old ← M.catch_ (getField cfg sb bv kv.toStr) fun _ => pure .empty
+        (if old == .empty then
+           (match bv with
+            | .obj n => M.catch_ (writeAttr n kv.toStr (.dict [])) fun _ => pure ()
+            | .scope .globals => writeGlobal kv.toStr (.dict [])
+            | .scope _ => writeLocal kv.toStr (.dict [])
+            | _ => pure () : M Unit)
+         else pure () : M Unit)
+        pure (.empty, .ok)
+    | _ => pure (.empty, .ok)
+
 /-- One node.  `ev` evaluates sub-expressions (one unit of fuel less), `fuel` bounds `while`. -/
 def evalNode (cfg : Cfg) (sb : Bool) (fuel : Nat) (ev : Expr → M Out) (e : Expr) : M Out :=
   match e with
   | .lit v => pure (v, .ok)
   | .var name => do let v ← readVar name; pure (v, .ok)
-  | .ref name => pure (.str ("&" ++ name), .ok)                        -- a Reference object; reading only
-  | .deref e => chk (ev e) fun v =>
-      match v with
-      | .str s => if s.startsWith "&" then do let r ← readVar (s.drop 1).toString; pure (r, .ok)
-                  else M.fail (.script "Invalid reference specified.")
-      | _ => M.fail (.script "Invalid reference specified.")
+  | .ref target =>                                                    -- :152-164 GetReference(frame, false, …)
+      match target with
+      | .var name => do                                               -- VariableExpression::GetReference :125-150
+        let env ← M.get
+        if (lookup name env.locals).isSome then pure (.refr .locals name, .ok)
+        else if (lookup name env.prot.consts).isSome || (lookup name env.prot.globals).isSome then pure (.refr .globals name, .ok)
+        else pure (.refr .locals name, .ok)
+      | .index a b => chk (ev a) fun pv => chk (ev b) fun iv =>       -- IndexerExpression::GetReference :748-799 (init_dict = false)
+        match pv with
+        | .obj n => pure (.refr (.obj n) iv.toStr, .ok)
+        | .scope .globals => pure (.refr .globals iv.toStr, .ok)
+        | .scope _ => pure (.refr .locals iv.toStr, .ok)
+        | .dict l => pure (.refr (.dict l) iv.toStr, .ok)
+        | _ => M.fail (.script "Cannot obtain reference for expression because parent is not an object.")
+      | _ => M.fail (.script "Cannot obtain reference for expression.")
+  | .deref e => chk (ev e) fun v => do let r ← refRead cfg v; pure (r, .ok)      -- :166-178 ref->Get()
   | .unop op e => chk (ev e) fun v =>
       match op with
       | .logicalNegate => pure (.bool (!v.toBool), .ok)
@@ -528,6 +596,9 @@ def evalNode (cfg : Cfg) (sb : Bool) (fuel : Nat) (ev : Expr → M Out) (e : Exp
          | _ => writeLocal name nv : M Unit)
         pure (.empty, .ok)
   | .setField o field op rhs =>                                       -- IndexerExpression::GetReference :748-799
+      -- :616 GetReference(frame, init_dict = true, …): a MISSING intermediate key is created as an empty
+      -- dictionary first (:762-776) unless the frame is sandboxed and `init_dict` is forced off (:758-759)
+      chk (initDict cfg sb ev o) fun _ =>
       chk (ev o) fun ov => chk (ev rhs) fun v => do
         let old ← (if op == .literal then pure Value.empty else getField cfg sb ov field : M Value)   -- :623
         let nv ← combine op old v
@@ -536,6 +607,12 @@ def evalNode (cfg : Cfg) (sb : Bool) (fuel : Nat) (ev : Expr → M Out) (e : Exp
          | .scope .globals => writeGlobal field nv
          | .scope _ => writeLocal field nv
          | _ => M.fail (.script "Cannot set field on a value that is not an object.") : M Unit)
+        pure (.empty, .ok)
+  | .setDeref r op rhs =>                                             -- *r = …  (:180-191, :616-655)
+      chk (ev r) fun rv => chk (ev rhs) fun v => do
+        let old ← (if op == .literal then pure Value.empty else refRead cfg rv : M Value)
+        let nv ← combine op old v
+        refWrite rv nv
         pure (.empty, .ok)
   | .setConst name e =>                                               -- :674-685
       chk (ev e) fun v => do
